@@ -233,7 +233,7 @@ def _ground_terms(asserts, sort, limit=12):
     return terms[:limit]
 
 
-def _instantiated_sat(asserts, timeout_ms):
+def _instantiated_sat(asserts, timeout_ms, linear=False):
     """Counter-model search when the solver cannot decide the quantified query: the negated goal is skolemised, every
     universally quantified hypothesis is replaced by its instances at the ground terms (of the bound variables' sorts)
     occurring in the obligation.  The hypotheses are thereby weakened: a model found here is a *candidate* counterexample
@@ -270,6 +270,8 @@ def _instantiated_sat(asserts, timeout_ms):
                     break
         s = z3.Solver(ctx=asserts[-1].ctx)
         s.set('timeout', timeout_ms)
+        if linear:
+            s.set('smt.arith.nl', False)
         s.add(*ground)
         s.add(*extra)
         r = s.check()
@@ -337,7 +339,7 @@ def solve_forked(args):
         # main query; on `unknown` retried with other random seeds (quantifier instantiation is order sensitive)
         for attempt, seed in enumerate((0, 7, 23)):
             s = z3.Solver(ctx=zc)
-            s.set('timeout', timeout_ms)
+            s.set('timeout', timeout_ms if attempt == 0 else max(5000, timeout_ms // 3))
             if seed:
                 s.set('random_seed', seed)
                 s.set('smt.random_seed', seed)
@@ -352,15 +354,19 @@ def solve_forked(args):
             if o.expect_sat:
                 break
         if use_fallback:
-            name, r2, backend, ms2, model, reason2 = solve_text((str(idx), o.to_smt2(), min(timeout_ms, 20000), True, True))
+            name, r2, backend, ms2, model, reason2 = solve_text((str(idx), o.to_smt2(), min(timeout_ms, 10000), True, True))
             if r2 in ('sat', 'unsat'):
                 return str(idx), r2, backend, (time.time() - t0) * 1000, model, reason2
             reason = '%s | %s' % (reason, reason2)
         if not o.expect_sat:
-            r3, model3 = _instantiated_sat(asserts, min(timeout_ms, 20000))
+            r3, model3 = _instantiated_sat(asserts, min(timeout_ms, 15000))
             if r3 == 'sat':
                 return (str(idx), 'sat', 'z3-5.1.0(api)', (time.time() - t0) * 1000, model3,
                         'CANDIDATE counter-model: quantified hypotheses instantiated at the ground terms of the obligation')
+            r3, model3 = _instantiated_sat(asserts, min(timeout_ms, 10000), linear=True)
+            if r3 == 'sat':
+                return (str(idx), 'sat', 'z3-5.1.0(api)', (time.time() - t0) * 1000, model3,
+                        'CANDIDATE counter-model: quantified hypotheses instantiated, nonlinear products treated as opaque terms')
         return str(idx), 'unknown', 'z3-5.1.0(api)', (time.time() - t0) * 1000, None, reason
     except Exception as e:
         return str(idx), 'unknown', 'error', 0.0, None, 'solver error: %r' % (e,)
